@@ -157,6 +157,7 @@ func checkBytes(r *ev.Run, sc *scratch, asString bool, tag int, payload []byte) 
 	}
 	pred := csproto.SizeOfTagKey(tag) + csproto.SizeOfVarint(uint64(len(payload))) + len(payload)
 	s := string(payload)
+	orig := append([]byte{}, payload...)
 	out, f := encodeExact(sc, pred, func(e *csproto.Encoder) {
 		if asString {
 			e.EncodeString(tag, s)
@@ -165,6 +166,9 @@ func checkBytes(r *ev.Run, sc *scratch, asString bool, tag int, payload []byte) 
 		}
 	})
 	id := fmt.Sprintf("%s/tag=%d/len=%d", kind, tag, len(payload))
+	if f == "" && !bytes.Equal(orig, payload) {
+		f = "the encoder modified the slice it was given"
+	}
 	if f != "" {
 		r.Fail("scalar/"+kind+"/"+f[:min(len(f), 40)], id, caseInfo{Kind: kind, Tag: tag, Val: fmt.Sprintf("len=%d", len(payload)), Msg: f})
 		return
